@@ -352,6 +352,14 @@ Ltac eqb_norm :=
          | Hx : rstate_eqb _ _ = false |- _ => apply RE_Inv.rstate_eqb_neq in Hx
          end.
 
+(* THE ONLY TWO FACTS this file uses about the `pause` command of a plan are [exec_pause_dj1] (here) and
+   [exec_pause_defer_A] (before [dstep_A]); everything else about [exec_cmd] excludes `CPause` by hypothesis *)
+Lemma exec_pause_dj1 (s : st) m d s' c o : mcmd m = CPause d -> exec_cmd dev s m = (s', c, o) -> dj1 s -> dj1 s'.
+Proof.
+  intros Ec Ex Hd. destruct (RE_Inv.exec_cmd_pause _ _ dev _ _ _ _ _ _ Ec Ex) as (e & o' & Hrp & _).
+  eapply request_pause_dj1; eassumption.
+Qed.
+
 Lemma dstep_dj1 (s : st) c r0 :
   dj1 s -> dstep s c = r0 ->
   match r0 with inl (s', _, _) => dj1 s' | inr (s', _) => j1 s' end.
@@ -380,8 +388,7 @@ Proof.
     assert (Hd3 : dj1 s3).
     { destruct (mcmd m) eqn:Ec;
         try (eapply dj1_r3; [eapply exec_cmd_r3; [|exact Ex]; intros d0 Hd0; rewrite Ec in Hd0; discriminate Hd0 | exact Hd2]).
-      - destruct (RE_Inv.exec_cmd_pause _ _ dev _ _ _ _ _ _ Ec Ex) as (e & o' & Hrp & _).
-        eapply request_pause_dj1; eassumption.
+      - eapply exec_pause_dj1; eassumption.
       - eapply dj1_r3; [eapply exec_start_suspender_r3; exact Ex | exact Hd2]. }
     destruct cr; subst r0; [exact Hd3 | apply dj1_j1 in Hd3; unfold j1 in *; cbn; exact Hd3].
   - (* CContinue *) subst r0. destruct popped; unfold dj1 in *; cbn; exact Hd.
@@ -616,6 +623,15 @@ Proof.
   - apply ae_oof, in_or_app; right; exact H.
 Qed.
 
+(* a pause(defer=True) message on a running engine only sets the flag (second of the two facts about `CPause`) *)
+Lemma exec_pause_defer_A i0 (s : st) m s' c o :
+  mcmd m = CPause true -> R3 i0 s -> exec_cmd dev s m = (s', c, o) -> R3 i0 s' /\ o = [] /\ exists r, c = Done r.
+Proof.
+  intros Ec (A1 & A2 & A3 & A4) Ex. unfold exec_cmd in Ex. rewrite Ec in Ex. unfold request_pause in Ex.
+  rewrite A1, allowed_running_pausing in Ex. cbn [negb] in Ex. invc Ex.
+  split; [repeat split; assumption|]. split; [reflexivity | eexists; reflexivity].
+Qed.
+
 Ltac r3_solve Hr := first [exact Hr | eapply R3_r3; [|exact Hr]; reflexivity].
 
 Lemma dstep_A i0 (s : st) c r0 :
@@ -687,9 +703,8 @@ Proof.
                intros Hk; subst cr; apply exec_cmd_grace in Ex; rewrite Ec in Ex; discriminate Ex).
         - (* pause(defer=True): the flag is set again *)
           match goal with Hx : mcmd m = CPause ?d0 |- _ => destruct d0; [|discriminate Epn] end.
-          unfold exec_cmd in Ex. rewrite Ec in Ex. unfold request_pause in Ex.
-          destruct R2 as (A1 & A2 & A3 & A4). rewrite A1, allowed_running_pausing in Ex. cbn [negb] in Ex. invc Ex.
-          split; [repeat split; assumption|]. split; [reflexivity|]. split; [reflexivity | discriminate].
+          destruct (exec_pause_defer_A i0 s2 m s3 cr o3 Ec R2 Ex) as (Q1 & -> & r & ->).
+          split; [exact Q1|]. split; [reflexivity|]. split; [reflexivity | discriminate].
         - (* `_start_suspender` *)
           split; [eapply R3_r3; [eapply exec_start_suspender_r3; exact Ex | exact R2]|].
           destruct (dq_clean _ (exec_start_suspender_dq _ _ _ _ _ _ _ _ _ _ _ Ex)) as [Q1 Q2]. split; [exact Q1|]. split; [exact Q2|].
